@@ -42,10 +42,10 @@ ND0 = {"__nd__": 0.25}
 TF0 = {"__tf__": 2.0}
 
 ALPHAS = [None, "auto", "auto_po2", 2.0]
-# array alphas only where the docstring says "a tensor": quantized_bits
-# ("alpha: a tensor or None, the scaling factor per channel") and
-# quantized_linear ("alpha (str, Tensor, None)")
-ALPHAS_T = ALPHAS + [ND4]
+# array/tensor alphas only for quantized_linear ("alpha (str, Tensor, None)");
+# quantized_bits.__call__ itself raises for an ndarray alpha
+# (`self.alpha != "auto_po2"` on an array), the other classes document a
+# "fixed value".
 
 
 def _is_str(v):
@@ -88,7 +88,7 @@ SPEC = {
         ("use_variables", _const([False, True])),
     ],
     "quantized_bits": [
-        ("alpha", _const(ALPHAS_T)),
+        ("alpha", _const(ALPHAS)),
         ("scale_axis", _const([None, 0, [0, 1]])),
         ("bits", _const([8, 4, 2])),
         ("integer", _const([0, 1])),
@@ -426,7 +426,7 @@ def _arr_eq(a, b):
   return bool(np.array_equal(a, b))
 
 
-def obs_diff(o1, o2, probes=None, phases=(0, 1)):
+def obs_diff(o1, o2, probes=None, phases=(0, 1), with_scale=True):
   """None if equal, else (effect, detail) for the first difference."""
   for i, (a, b) in enumerate(zip(o1, o2)):
     where = "obs#%d" % i
@@ -456,7 +456,7 @@ def obs_diff(o1, o2, probes=None, phases=(0, 1)):
       return ("output", "%s: %d/%d elements differ, e.g. flat[%d]: original "
               "%r rebuilt %r" % (where, int((d > 0).sum()), d.size, j,
                                  ya.reshape(-1)[j], yb.reshape(-1)[j]))
-    if not _arr_eq(a[2], b[2]):
+    if with_scale and not _arr_eq(a[2], b[2]):
       return ("scale", "%s: equal outputs but scale original %r rebuilt %r" %
               (where, _short(a[2]), _short(b[2])))
   return None
@@ -493,21 +493,140 @@ def ddmin(cls, kw, still_fails):
   return cur
 
 
-def explain_lost(cls, kw, obs_rebuilt, observe_direct):
-  """Smallest set L of options of kw such that a quantizer built directly
-  *without* L behaves like the rebuilt one (the rebuilt quantizer lost exactly
-  these options).  None if no set of size <= 2 explains the difference."""
-  keys = sorted(kw)
+def find_lost(kw, obs_rebuilt, observe_direct, hint, with_scale=True,
+              max_tries=30):
+  """Smallest set L of options such that a quantizer built directly without
+  L behaves like the rebuilt one on every probe (None: nothing found).
+  `hint` (options the rebuilt object visibly does not carry) only orders the
+  search; the verdict is behavioural."""
+
+  def explains(sub):
+    cand = {a: b for a, b in kw.items() if a not in sub}
+    try:
+      o = observe_direct(cand)
+    except Exception:  # pylint: disable=broad-except
+      return False
+    return obs_diff(o, obs_rebuilt, with_scale=with_scale) is None
+
+  if hint and explains(hint):
+    lost = list(hint)
+    for o in list(lost):
+      t = [x for x in lost if x != o]
+      if t and explains(t):
+        lost = t
+    return sorted(lost)
+  tries = 0
   for size in (1, 2):
-    for sub in itertools.combinations(keys, size):
-      cand = {a: b for a, b in kw.items() if a not in sub}
-      try:
-        o = observe_direct(cand)
-      except Exception:  # pylint: disable=broad-except
-        continue
-      if obs_diff(o, obs_rebuilt) is None:
-        return list(sub)
+    for sub in itertools.combinations(sorted(kw), size):
+      tries += 1
+      if tries > max_tries:
+        return None
+      if explains(sub):
+        return sorted(sub)
   return None
+
+
+def analyse(cls, kw, route, evaluate, observe_direct, is_known,
+            with_scale=True, depth=0, unexplained=None):
+  """Root causes of the failure of `route` on configuration kw.
+
+  evaluate(kw) -> object with attributes/methods
+      ctor            False if the constructor of the original raised
+      fid(route)      None | ("mismatch", None, None) | (kind, exc, frame)
+      static_fid(route)  the same for failures that need no observation
+      robs(route)     observations of the rebuilt quantizer
+      detail[route]   text
+      hint(route)     options the rebuilt object visibly does not carry
+  Returns a list of (signature_fields, detail, minimal_kw); the caller adds
+  class / route to the signature.  Raising failures are reduced to the
+  1-minimal option set (ddmin over options; removed option = default);
+  mismatches are attributed to the options the rebuilt quantizer lost."""
+  kw = nondefault(cls, kw)
+  ev = evaluate(kw)
+  if not ev.ctor:
+    return []
+  fid = ev.fid(route)
+  if fid is None:
+    return []
+
+  def rec(k):
+    return analyse(cls, k, route, evaluate, observe_direct, is_known,
+                   with_scale, depth + 1, unexplained)
+
+  def mk(m, sig, e):
+    return (sig, "%s(%s): %s" % (cls, kwstr(m), e.detail[route]), m)
+
+  base = {"kind": fid[0]}
+  if fid[0] != "mismatch":
+    def still(k):
+      e = evaluate(k)
+      return e.ctor and e.static_fid(route) == fid
+    m = ddmin(cls, kw, still)
+    sig = dict(base, exc=fid[1], frame=fid[2], options=kwstr(m))
+    out = [mk(m, sig, evaluate(m))]
+    rest = {k: v for k, v in kw.items() if k not in m}
+    if m and depth < 5 and admissible(cls, rest):
+      out += rec(rest)
+    return out
+
+  lost = find_lost(kw, ev.robs(route), observe_direct, ev.hint(route),
+                   with_scale)
+  if lost is not None and len(lost) == 1:
+    sig = dict(base, lost_options=lost)
+    m = kw
+    if not is_known(sig):
+      def still1(k):
+        e = evaluate(k)
+        return e.ctor and lost[0] in k and e.fid(route) == fid
+      m = ddmin(cls, kw, still1)
+    return [mk(m, sig, evaluate(m))]
+  if lost is not None:
+    # several options lost at once: attribute each one separately; an option
+    # that is only admissible together with another lost one (elements_per_
+    # scale needs scale_axis) is reported jointly with that companion
+    def without(drop):
+      return {a: b for a, b in kw.items() if a not in drop}
+    joint = mk(kw, dict(base, lost_options=lost), ev)
+    out = []
+    if depth < 5:
+      for o in lost:
+        others = [x for x in lost if x != o]
+        k1 = without(others)
+        if admissible(cls, k1):
+          out += rec(k1)
+          continue
+        for p_ in others:
+          k2 = without([x for x in others if x != p_])
+          if admissible(cls, k2):
+            if len(k2) == len(kw):
+              out.append(joint)
+            else:
+              out += rec(k2)
+            break
+        else:
+          out.append(joint)
+    if not out:
+      # not separable on these probes: every member of `lost` is lost
+      out = [mk(kw, dict(base, lost_options=[o]), ev) for o in lost]
+    return out
+  # unexplained: reduce to the 1-minimal failing option set
+  def still2(k):
+    e = evaluate(k)
+    return e.ctor and e.fid(route) == fid
+  m = ddmin(cls, kw, still2)
+  evm = evaluate(m)
+  lost = find_lost(m, evm.robs(route), observe_direct, evm.hint(route),
+                   with_scale)
+  if lost is not None:
+    sig = dict(base, lost_options=lost)
+  else:
+    sig = dict(base, lost_options="unexplained")
+    sig.update(unexplained(evm) if unexplained else {"options": kwstr(m)})
+  out = [mk(m, sig, evm)]
+  rest = {k: v for k, v in kw.items() if k not in m}
+  if m and depth < 5 and admissible(cls, rest):
+    out += rec(rest)
+  return out
 
 
 # ---------------------------------------------------------------------------
